@@ -1,5 +1,497 @@
 package main
 
-import "verifh/kit/vio"
+// C25 drivers (spec/Votes.tla): the real consensus_vote.CheckVotes reached through ImportExTransfer on a vote-router chain
+// (mode "vote") or a ripple-router chain (mode "ripple": ripple.MakeDepositProposal shares CheckVotes), and the real
+// signature_manager.CheckSigns reached through AddSignature (mode "sig").  An epoch change re-seeds the consensus pool
+// (new view) between votes.
 
-func votesEdges(mode string) { vio.Fatal("not built yet") }
+import (
+	"bytes"
+	"crypto/sha256"
+	"encoding/binary"
+	"encoding/hex"
+	"encoding/json"
+	"fmt"
+	"sort"
+	"sync"
+
+	"github.com/polynetwork/poly/account"
+	"github.com/polynetwork/poly/common"
+	"github.com/polynetwork/poly/common/config"
+	cstates "github.com/polynetwork/poly/core/states"
+	"github.com/polynetwork/poly/core/store/leveldbstore"
+	"github.com/polynetwork/poly/core/store/overlaydb"
+	"github.com/polynetwork/poly/native"
+	ccm "github.com/polynetwork/poly/native/service/cross_chain_manager"
+	scom "github.com/polynetwork/poly/native/service/cross_chain_manager/common"
+	scm "github.com/polynetwork/poly/native/service/governance/side_chain_manager"
+	sigm "github.com/polynetwork/poly/native/service/governance/signature_manager"
+	"github.com/polynetwork/poly/native/service/utils"
+	"github.com/polynetwork/poly/native/storage"
+
+	"verifh/kit/nativekit"
+	"verifh/kit/vio"
+)
+
+type VStep struct {
+	Act  string   `json:"act"`
+	Id   string   `json:"id,omitempty"`
+	A    string   `json:"a,omitempty"`
+	Err  bool     `json:"err,omitempty"`
+	Rel  bool     `json:"rel,omitempty"`
+	Cons []string `json:"cons,omitempty"`
+}
+
+type vpostJ struct {
+	Cons   []string            `json:"cons"`
+	Voted  map[string][]string `json:"voted"`
+	Status map[string]bool     `json:"status"`
+}
+
+type vedgeJ struct {
+	H    []VStep `json:"h"`
+	Step VStep   `json:"step"`
+	Post vpostJ  `json:"post"`
+}
+
+type VUniverse struct {
+	mode    string
+	u       *Universe // only for tx construction
+	accts   map[string]*account.Account
+	nameOf  map[string]string // base58 address -> name
+	src, to uint64
+	msgs    map[string]*Msg   // vote / ripple: message per id
+	subj    map[string][]byte // sig: subject per id
+	sigs    map[string][]byte // sig: signature bytes per voter
+	base    *leveldbstore.LevelDBStore
+	init    []string
+	ids     []string
+}
+
+func newVUniverse(mode string, addrs, init, ids []string, seed uint64) *VUniverse {
+	config.DefConfig.P2PNode.NetworkId = config.NETWORK_ID_MAIN_NET
+	config.DefConfig.Common.EnableEventLog = true
+	rng := vio.NewRNG(seed*104729 + 7)
+	v := &VUniverse{mode: mode, accts: map[string]*account.Account{}, nameOf: map[string]string{}, msgs: map[string]*Msg{},
+		subj: map[string][]byte{}, sigs: map[string][]byte{}, init: init, ids: ids}
+	v.u = &Universe{salt: uint32(rng.U64())}
+	for _, n := range addrs {
+		a := account.NewAccount("")
+		v.accts[n] = a
+		v.nameOf[a.Address.ToBase58()] = n
+		v.sigs[n] = rng.Bytes(65)
+	}
+	v.src, v.to = 1+uint64(rng.Intn(1000)), 2000+uint64(rng.Intn(1000))
+	sb := nativekit.New()
+	sb.SeedValidators(v.pick(init), 1)
+	ns := sb.Service(nativekit.Tx(), nil)
+	router := uint64(utils.VOTE_ROUTER)
+	if mode == "ripple" {
+		router = utils.RIPPLE_ROUTER
+	}
+	vio.Must(scm.PutSideChain(ns, &scm.SideChain{ChainId: v.src, Router: router, Name: "src", BlocksToWait: 1, CCMCAddress: []byte{1}}))
+	vio.Must(scm.PutSideChain(ns, &scm.SideChain{ChainId: v.to, Router: utils.ETH_ROUTER, Name: "dst", BlocksToWait: 1, CCMCAddress: []byte{2}}))
+	if mode == "ripple" {
+		scm.PutAssetBind(ns, v.src, &scm.AssetBind{AssetMap: map[uint64][]byte{v.to: rng.Bytes(20)}, LockProxyMap: map[uint64][]byte{v.to: rng.Bytes(20)}})
+	}
+	sb.Cache.Commit()
+	for _, id := range ids {
+		args := rng.Bytes(10 + rng.Intn(40))
+		if mode == "ripple" {
+			b := new(bytes.Buffer)
+			putVarBytes(b, rng.Bytes(20))
+			b.Write(u64le(1000000 + uint64(rng.Intn(1000))))
+			args = b.Bytes()
+		}
+		v.msgs[id] = &Msg{TxHash: rng.Bytes(32), CrossChainID: rng.Bytes(1 + rng.Intn(32)), FromContract: rng.Bytes(20), To: v.to,
+			ToContract: rng.Bytes(20), Method: "unlock", Args: args}
+		v.subj[id] = rng.Bytes(1 + rng.Intn(100))
+	}
+	sb.Store.NewBatch()
+	sb.Overlay.CommitTo()
+	vio.Must(sb.Store.BatchCommit())
+	v.base = sb.Store
+	return v
+}
+
+func (v *VUniverse) pick(names []string) []*account.Account {
+	var r []*account.Account
+	for _, n := range names {
+		r = append(r, v.accts[n])
+	}
+	return r
+}
+
+type VRun struct {
+	v    *VUniverse
+	sb   *nativekit.Sandbox
+	view uint32
+	ntx  uint32
+	cons []string
+}
+
+func (v *VUniverse) newRun() *VRun {
+	ov := overlaydb.NewOverlayDB(v.base)
+	sb := &nativekit.Sandbox{Store: v.base, Overlay: ov, Cache: storage.NewCacheDB(ov), Height: 100, Time: 1000}
+	return &VRun{v: v, sb: sb, view: 1, cons: append([]string{}, v.init...)}
+}
+
+func (r *VRun) voteKey(id string) []byte {
+	v := r.v
+	if v.mode == "sig" {
+		h := sha256.Sum256(v.subj[id])
+		return append([]byte(sigm.SIG_INFO), h[:]...)
+	}
+	h := sha256.Sum256(entrance(v.src, 77, nil, nil, v.msgs[id].bytes(), nil))
+	return append([]byte("voteInfo"), h[:]...)
+}
+
+type VGot struct {
+	Err    string `json:"err,omitempty"`
+	Panic  string `json:"panic,omitempty"`
+	Rel    bool   `json:"rel"`
+	Detail string `json:"detail,omitempty"`
+}
+
+// apply executes one step on the real contracts; Rel = the message was released (request stored and one leaf committed)
+// resp. the quorum event was emitted.
+func (r *VRun) apply(st *VStep) *VGot {
+	v := r.v
+	g := &VGot{}
+	if st.Act == "epoch" {
+		r.view++
+		r.sb.SeedValidators(v.pick(st.Cons), r.view)
+		r.cons = append([]string{}, st.Cons...)
+		return g
+	}
+	acct := v.accts[st.A]
+	r.ntx++
+	tx := v.u.tx(r.ntx, acct.Address)
+	var ns *native.NativeService
+	call := func(h native.Handler, in []byte) {
+		g.Panic = vio.Safe(func() {
+			_, n, err := r.sb.Call(h, tx, in)
+			ns = n
+			if err != nil {
+				g.Err = err.Error()
+			}
+		})
+		if g.Panic != "" {
+			r.sb.Cache.Reset()
+		}
+	}
+	if v.mode == "sig" {
+		b := new(bytes.Buffer)
+		putVarBytes(b, acct.Address[:])
+		b.Write(u64le(v.src))
+		putVarBytes(b, v.subj[st.Id])
+		putVarBytes(b, v.sigs[st.A])
+		call(sigm.AddSignature, b.Bytes())
+		if g.Err == "" && g.Panic == "" {
+			n := 0
+			for _, ev := range ns.GetNotify() {
+				if s, ok := ev.States.([]interface{}); ok && len(s) > 0 && s[0] == "AddSignatureQuorum" && ev.ContractAddress == utils.SignatureManagerContractAddress {
+					n++
+				}
+			}
+			g.Rel = n > 0
+			if n > 1 {
+				g.Detail = fmt.Sprintf("%d quorum events in one call", n)
+			}
+		}
+		return g
+	}
+	m := v.msgs[st.Id]
+	before := r.requests()
+	call(ccm.ImportExTransfer, entrance(v.src, 77, nil, acct.Address[:], m.bytes(), nil))
+	if g.Err == "" && g.Panic == "" {
+		after := r.requests()
+		leaves := len(ns.GetCrossHashes())
+		g.Rel = len(after) > len(before)
+		if (len(after)-len(before) != 0 && len(after)-len(before) != 1) || (g.Rel && leaves != 1) || (!g.Rel && leaves != 0) {
+			g.Detail = fmt.Sprintf("requests %d -> %d, leaves %d", len(before), len(after), leaves)
+		}
+		if g.Rel {
+			// the released request names this message
+			txh := tx.Hash()
+			key := hex.EncodeToString(append(append([]byte(scom.REQUEST), u64le(v.to)...), txh.ToArray()...))
+			raw, ok := after[key]
+			if !ok || !bytes.Contains(vio.UnHex(raw), m.CrossChainID) {
+				g.Detail += " released request is not this message"
+			}
+		}
+	}
+	return g
+}
+
+func (r *VRun) requests() map[string]string {
+	res := map[string]string{}
+	for k, val := range r.sb.DumpContract(utils.CrossChainManagerContractAddress) {
+		if bytes.HasPrefix(vio.UnHex(k), []byte(scom.REQUEST)) {
+			res[k] = val
+		}
+	}
+	return res
+}
+
+// project reads the stored vote / signature records back: voted set and Status flag per id.
+func (r *VRun) project() (map[string][]string, map[string]bool, string) {
+	v := r.v
+	voted, status := map[string][]string{}, map[string]bool{}
+	contract := utils.CrossChainManagerContractAddress
+	if v.mode == "sig" {
+		contract = utils.SignatureManagerContractAddress
+	}
+	problem := ""
+	for _, id := range v.ids {
+		voted[id] = []string{}
+		status[id] = false
+		raw, err := r.sb.Cache.Get(append(contract[:], r.voteKey(id)...))
+		if err != nil || raw == nil {
+			continue
+		}
+		val, err := cstates.GetValueFromRawStorageItem(raw)
+		if err != nil || len(val) < 9 {
+			problem = "undecodable record"
+			continue
+		}
+		src := common.NewZeroCopySource(val)
+		st, _ := src.NextBool()
+		n, _ := src.NextUint64()
+		status[id] = st
+		for k := uint64(0); k < n; k++ {
+			addr, eof := src.NextString()
+			if eof {
+				problem = "truncated record"
+				break
+			}
+			if v.mode == "sig" {
+				src.NextVarBytes()
+			} else {
+				src.NextBool()
+			}
+			name, ok := v.nameOf[addr]
+			if !ok {
+				name = "?" + addr
+			}
+			voted[id] = append(voted[id], name)
+		}
+		sort.Strings(voted[id])
+	}
+	return voted, status, problem
+}
+
+func votesEdges(mode string) {
+	lines := vio.ReadLines()
+	edges := make([]*vedgeJ, len(lines))
+	addrSet, idSet := map[string]bool{}, map[string]bool{}
+	for i, l := range lines {
+		e := new(vedgeJ)
+		if err := json.Unmarshal(l, e); err != nil {
+			vio.Fatal("bad edge line %d: %v", i, err)
+		}
+		edges[i] = e
+		for _, st := range append(append([]VStep{}, e.H...), e.Step) {
+			if st.A != "" {
+				addrSet[st.A] = true
+			}
+			for _, c := range st.Cons {
+				addrSet[c] = true
+			}
+		}
+		for id := range e.Post.Voted {
+			idSet[id] = true
+		}
+		for _, c := range e.Post.Cons {
+			addrSet[c] = true
+		}
+	}
+	var addrs, ids, init []string
+	for a := range addrSet {
+		addrs = append(addrs, a)
+	}
+	for i := range idSet {
+		ids = append(ids, i)
+	}
+	sort.Strings(addrs)
+	sort.Strings(ids)
+	// the initial validator set: the post-state cons of any edge with an epoch-free history
+	for _, e := range edges {
+		if len(e.H) == 0 && e.Step.Act == "vote" {
+			init = e.Post.Cons
+			break
+		}
+	}
+	if init == nil {
+		vio.Fatal("cannot determine the initial validator set")
+	}
+	v := newVUniverse(mode, addrs, init, ids, vio.Seed())
+	var mu sync.Mutex
+	distinct := map[string]bool{}
+	nmis, ndiv := 0, 0
+	vio.ParMap(len(edges), workers(), func(i int) {
+		e := edges[i]
+		r := v.newRun()
+		for k := range e.H {
+			st := &e.H[k]
+			g := r.apply(st)
+			if st.Act == "vote" && (g.Rel != st.Rel || (g.Err != "") != st.Err || g.Panic != "") {
+				mu.Lock()
+				ndiv++
+				mu.Unlock()
+				vio.Emit(map[string]interface{}{"diverged": true, "idx": i, "at": k, "step": st, "got": g})
+				return
+			}
+		}
+		st := &e.Step
+		g := r.apply(st)
+		voted, status, problem := r.project()
+		var what []string
+		if st.Act == "vote" {
+			if g.Rel != st.Rel {
+				what = append(what, "rel")
+			}
+			if (g.Err != "") != st.Err {
+				what = append(what, "err")
+			}
+			if g.Panic != "" {
+				what = append(what, "panic")
+			}
+			if g.Detail != "" {
+				what = append(what, "release-shape")
+			}
+		}
+		if problem != "" {
+			what = append(what, "record")
+		}
+		for _, id := range ids {
+			if !eqStr(sortedCopy(e.Post.Voted[id]), voted[id]) {
+				what = append(what, "voted")
+				break
+			}
+		}
+		for _, id := range ids {
+			if e.Post.Status[id] != status[id] {
+				what = append(what, "status")
+				break
+			}
+		}
+		key := fmt.Sprintf("%s|%s|%s|%v|%v|%v|%v|%v", st.Act, st.Id, st.A, st.Err, st.Rel, sortedCopy(e.Post.Cons), voted, status)
+		mu.Lock()
+		if !(st.Act == "vote" && st.Err) {
+			distinct[key] = true
+		}
+		if len(what) > 0 {
+			nmis++
+		}
+		mu.Unlock()
+		if len(what) > 0 {
+			// the same edge as a trace of observations for the monitor
+			r2 := v.newRun()
+			trace := []map[string]interface{}{{"ev": "reset", "cons": v.init, "id": "", "a": "", "err": false, "rel": false}}
+			for _, s := range append(append([]VStep{}, e.H...), *st) {
+				s := s
+				trace = append(trace, r2.event(&s))
+			}
+			vio.Emit(map[string]interface{}{"mismatch": true, "idx": i, "what": what, "step": st, "h": e.H, "got": g, "voted": voted, "status": status,
+				"pred": e.Post, "trace": trace})
+		}
+	})
+	vio.Emit(map[string]interface{}{"summary": true, "edges": len(edges), "distinct": len(distinct), "mismatches": nmis, "diverged": ndiv, "mode": mode})
+}
+
+func (r *VRun) event(st *VStep) map[string]interface{} {
+	g := r.apply(st)
+	if st.Act == "epoch" {
+		return map[string]interface{}{"ev": "epoch", "cons": st.Cons, "id": "", "a": "", "err": false, "rel": false}
+	}
+	return map[string]interface{}{"ev": "vote", "cons": []string{}, "id": st.Id, "a": st.A, "err": g.Err != "" || g.Panic != "", "rel": g.Rel,
+		"detail": g.Detail, "errmsg": g.Err, "panic": g.Panic}
+}
+
+// votesSteps executes the steps given on stdin (replay of a stored case) and emits the observed events.
+func votesSteps(mode string, addrs, init, ids []string) {
+	v := newVUniverse(mode, addrs, init, ids, vio.Seed())
+	r := v.newRun()
+	vio.Emit(map[string]interface{}{"ev": "reset", "cons": v.init, "id": "", "a": "", "err": false, "rel": false})
+	for i, l := range vio.ReadLines() {
+		st := new(VStep)
+		if err := json.Unmarshal(l, st); err != nil {
+			vio.Fatal("bad step line %d: %v", i, err)
+		}
+		vio.Emit(r.event(st))
+	}
+}
+
+// votesRecord: random histories for validator sets of 1..10 out of a pool of 12 accounts (+ permanent outsiders).
+func votesRecord(mode string, ntraces, length int) {
+	pool := []string{"p1", "p2", "p3", "p4", "p5", "p6", "p7", "p8", "p9", "p10", "p11", "p12"}
+	outs := []string{"x1", "x2"}
+	ids := []string{"m1", "m2", "m3"}
+	rng := vio.NewRNG(vio.Seed()*977 + 3)
+	subset := func(n int) []string {
+		p := rng.Perm(len(pool))
+		var s []string
+		for _, k := range p[:n] {
+			s = append(s, pool[k])
+		}
+		sort.Strings(s)
+		return s
+	}
+	for tr := 0; tr < ntraces; tr++ {
+		n := 1 + (tr+int(vio.Seed()))%10
+		init := subset(n)
+		v := newVUniverse(mode, append(append([]string{}, pool...), outs...), init, ids, vio.Seed()+uint64(tr))
+		r := v.newRun()
+		vio.Emit(map[string]interface{}{"ev": "reset", "cons": init, "id": "", "a": "", "err": false, "rel": false})
+		var past []string
+		for k := 0; k < length; k++ {
+			st := &VStep{}
+			d := rng.Intn(100)
+			switch {
+			case d < 90:
+				st.Act, st.Id = "vote", ids[rng.Intn(len(ids))]
+				switch e := rng.Intn(20); {
+				case e < 13:
+					st.A = r.cons[rng.Intn(len(r.cons))]
+				case e < 16 && len(past) > 0:
+					st.A = past[rng.Intn(len(past))]
+				case e < 18:
+					st.A = pool[rng.Intn(len(pool))]
+				default:
+					st.A = outs[rng.Intn(len(outs))]
+				}
+				past = append(past, st.A)
+			default:
+				st.Act = "epoch"
+				switch rng.Intn(3) {
+				case 0: // fresh set of another size
+					st.Cons = subset(1 + rng.Intn(10))
+				case 1: // drop one or two
+					st.Cons = append([]string{}, r.cons...)
+					for c := 0; c < 1+rng.Intn(2) && len(st.Cons) > 1; c++ {
+						j := rng.Intn(len(st.Cons))
+						st.Cons = append(st.Cons[:j], st.Cons[j+1:]...)
+					}
+				default: // add one or two
+					have := map[string]bool{}
+					for _, c := range r.cons {
+						have[c] = true
+					}
+					st.Cons = append([]string{}, r.cons...)
+					for c := 0; c < 1+rng.Intn(2); c++ {
+						p := pool[rng.Intn(len(pool))]
+						if !have[p] {
+							have[p] = true
+							st.Cons = append(st.Cons, p)
+						}
+					}
+					sort.Strings(st.Cons)
+				}
+			}
+			vio.Emit(r.event(st))
+		}
+	}
+}
+
+var _ = binary.LittleEndian
